@@ -9,6 +9,9 @@ CHECKS = {
              ref="6 C19", technique="Coq proof (lia over div/mod) + exhaustive correspondence",
              note="trusted: Coq kernel, the price list in Spec/Price.v, extraction, harness glue; on-chip I/O register addresses and areas 3-5 with DRAS>1 are outside the claim"),
 }
+CHECKS["C09"] = dict(text="Theorems accessible_iff_read/write, inaccessible_fails, beyond_24_bits_fails, read_after_write, history_spec (induction over any history of byte accesses: the bus refines the abstract partial map address->byte), word/long big-endian composition and straddling - all over unbounded Z addresses - about the model of Bus::read/Bus::write and the CPU access helpers; model tied to /repo by classification reads, write-read, sized accesses at every region boundary and random histories on tagged memory with a whole-image diff.",
+             ref="6 C09", technique="Coq proof (case analysis of the range chain + lia; induction over histories) + correspondence",
+             note="trusted: Coq kernel, the memory map in Spec/MemMap.v, extraction, harness glue; port DDR/DR registers are outside the plain-storage claims (C16)")
 NOT_APPLICABLE = []
 
 def main():
